@@ -38,6 +38,9 @@ engine:
 speller:
   alphabet: abcdefghijklmnopqrstuvwxyz
   delimiter: " '"
+  algebra:
+    - abbrev/^([a-z]).+$/$1/
+    - abbrev/^([zcs]h).+$/$1/
 translator:
   dictionary: vscript
   enable_user_dict: true
@@ -64,6 +67,15 @@ translator:
 """ + _PUNCT
 
 SYLLABLES = ["ba", "bo", "da", "du", "ga", "gu", "ma", "mi"]
+# syllables with a two-letter initial: reachable by two abbreviation levels (sh, s / zh, z)
+# and "ha": with it `sh` is also s + h, so the graph keeps both abbreviations of sha/shu
+EXTRA_SYLLABLES = ["sha", "shu", "zhu", "ha"]
+_EXTRA_CHARS = "沙殺數書朱主哈蛤"
+# abbreviated inputs: one-letter and zh/ch/sh abbreviations followed by a consonant or the end
+ABBR_INPUTS = {
+    "vscript": ["shd", "sd", "shb", "zhg", "bd", "shsh", "mzh", "dsh", "gm"],
+    "luna_pinyin": ["shj", "zhg", "nh", "zg", "shsh", "chd", "wm", "sj", "dsh"],
+}
 # distinct CJK characters, a few homophones per syllable
 _CHARS = "巴把八爸波玻播大打達度都讀嘎尬古谷股馬嗎媽米迷密"
 
@@ -80,6 +92,9 @@ def vscript_dict():
     for s in SYLLABLES:
         for j, c in enumerate(chars[s]):
             lines.append("%s\t%s\t%d" % (c, s, 300 - 90 * j))
+    for i, s in enumerate(EXTRA_SYLLABLES):
+        for j in range(2):
+            lines.append("%s\t%s\t%d" % (_EXTRA_CHARS[2 * i + j], s, 200 - 80 * j))
     # two-syllable phrases (some pairs have two homophonic phrases, some pairs none)
     pairs = [(a, b) for a in SYLLABLES for b in SYLLABLES]
     rnd.shuffle(pairs)
@@ -318,6 +333,7 @@ class DbHistory:
         self.flags = []      # (loaded, in_txn) the hook saw at each op
         self.events = []     # model tokens per event
         self.event_cmd = []  # script command in progress when the event was logged
+        self.event_saves = []  # separately memorised phrases of a commit event (0 for other events)
         self.op_cmd = []     # script command in progress at each call
         self.raw_events = []
         self.unmodelled = []
@@ -341,10 +357,22 @@ def parse_log(path):
     dbs = {n: DbHistory(n) for n in names}
     order = Order()
     for l in lines:
+        try:
+            _parse_line(l, dbs, order)
+        except Exception:
+            # a log line that does not have the expected shape is a difference to report
+            for h in dbs.values():
+                h.unmodelled.append("unparseable: " + l[:300])
+                break
+    return order, dbs
+
+
+def _parse_line(l, dbs, order):
+    if True:
         f = l.split("\t")
         if f[0] == "M":
             order.last_cmd = int(f[1])
-            continue
+            return
         if f[0] == "E" and len(f) > 2 and f[2] == "commit":
             order.last_commit_cmd = order.last_cmd
         if f[0] == "D":
@@ -363,14 +391,14 @@ def parse_log(path):
         elif f[0] == "E":
             depth, kind, ptr, name = int(f[1]), f[2], f[3], f[4]
             if name not in dbs or depth != 0:
-                continue
+                return
             h = dbs[name]
             if kind == "load":
                 h.ids[ptr] = h.next_id
                 h.next_id += 1
             if ptr not in h.ids:
                 h.unmodelled.append(l)
-                continue
+                return
             u = str(h.ids[ptr])
             rest = f[5:]
             if kind == "load":
@@ -389,12 +417,17 @@ def parse_log(path):
                 tk = "script" if "ScriptTranslator" in rest[0] else "table" if "TableTranslator" in rest[0] else None
                 if tk is None:
                     h.unmodelled.append(l)
-                    continue
+                    return
                 segs = rest[2:]
                 ev = ["C", u, tk, rest[1], str(len(segs))]
+                saves, pending = 0, False
                 for sg in segs:
                     g = sg.split(" ")
                     assert g[0] == "S"
+                    if g[1] == "1":
+                        pending = True
+                    if (g[1] == "0" or g[2] == "1") and pending:
+                        saves, pending = saves + 1, False
                     if g[1] == "0":
                         ev += ["0", g[2], "-", "-", "0", "0"]
                         continue
@@ -404,11 +437,11 @@ def parse_log(path):
                         ev += dentry_tokens(pe.split(" "))
             else:
                 h.unmodelled.append(l)
-                continue
+                return
             h.events.append(ev)
+            h.event_saves.append(saves if kind == "commit" else 0)
             h.event_cmd.append(order.last_cmd)
             h.raw_events.append(l)
-    return order, dbs
 
 
 def parse_model_output(text):
@@ -482,16 +515,19 @@ def gen_history(rnd, schema, steps, two_sessions=False, lookups=False):
         recent = (recent + [inp])[-4:]
         if lookups:
             L.append("L %d %s" % (sid, inp))
-        if r < 0.30:
+        if r < 0.26:
             L += ["K %d %s" % (sid, inp), "F %d" % sid]
             note("commit-top")
-        elif r < 0.50:
+        elif r < 0.46:
             L += ["K %d %s" % (sid, inp), "P %d %d" % (sid, rnd.randrange(12)), "F %d" % sid]
             note("commit-selected")
-        elif r < 0.58:
-            other = gen_input(rnd, schema)
-            L += ["K %d %s/%s" % (sid, inp, other), "F %d" % sid]
-            note("commit-two-entries")
+        elif r < 0.60:
+            # several separately memorised phrases in ONE commit: list punctuation (stays in
+            # the composition) between the phrases
+            sep = rnd.choice(["/", "/", "<"]) if schema == "luna_pinyin" else "/"
+            parts = [inp] + [gen_input(rnd, schema) for _ in range(rnd.choice([1, 1, 2]))]
+            L += ["K %d %s" % (sid, sep.join(parts)), "F %d" % sid]
+            note("commit-%d-entries" % len(parts))
         elif r < 0.64:
             L += ["K %d %s," % (sid, inp)]
             note("commit-by-punct")
@@ -544,10 +580,10 @@ def input_pool(rnd, schema):
             pool.add("".join(rnd.choice(SYLLABLES[:6]) for _ in range(rnd.choice([1, 2, 2, 2, 3]))))
         s2 = rnd.choice(SYLLABLES[:6])
         pool.add(s2 + s2)          # the same entry twice in one commit
-        return sorted(pool)
+        return sorted(pool) + ABBR_INPUTS["vscript"][:4]
     if schema == "vtable":
         return ["aa", "ab", "ba", "bb", "abc", "c", "aaab", "aabb", "abba", "abcaa", "aaaa", "abab"]
-    return ["ni", "hao", "nihao", "zhongguo", "women", "shijie", "wo", "de", "nihaoshijie", "womende", "nini"]
+    return ["ni", "hao", "nihao", "zhongguo", "women", "shijie", "wo", "de", "nihaoshijie", "womende", "nini"] + ABBR_INPUTS["luna_pinyin"][:4]
 
 
 def gen_c10_history(rnd, schema, steps, pool):
@@ -560,7 +596,15 @@ def gen_c10_history(rnd, schema, steps, pool):
         recent = (recent + [x])[-3:]
         r = rnd.random()
         a = len(L)
-        if r < 0.42:
+        if schema in ABBR_INPUTS and rnd.random() < 0.16:
+            # abbreviated input: assemble a phrase from partial selections, commit, optionally
+            # restart the session, retype the SAME abbreviated input
+            x = rnd.choice(ABBR_INPUTS[schema])
+            kind = "abbr"
+            L += ["L 1 %s" % x, "K 1 %s" % x, "Q 1 %d" % rnd.choice([0, 0, 1, 2, 3]), "F 1", "L 1 %s" % x]
+            if rnd.random() < 0.5:
+                L += ["D 1", "S 1 %s" % schema, "L 1 %s" % x]
+        elif r < 0.42:
             kind = "select"
             L += ["L 1 %s" % x, "K 1 %s" % x, "P 1 %d" % rnd.choice([0, 0, 1, 1, 2, 3, 4, 5, 7]), "F 1", "L 1 %s" % x]
         elif r < 0.56:
